@@ -21,10 +21,9 @@
    a Panic of a component is mapped to DErr here.  Event/E2E_proofs.v proves that no component panics on byte
    input in either overflow mode and that the two modes agree (e2e_components_never_panic, e2e_mode_irrelevant),
    so nothing is hidden by that mapping. *)
-From Coq Require Import Floats Uint63.
 From AG Require Import Base.Prelude Base.Res Base.Bytes Ident.Dispatch Gen.Boards Ident.Tables Gen.Calib.
 From AG Require Codec.Adc Codec.Chunk Codec.Reasm Codec.Pwb Codec.Trg Ident.Names Ident.Maps.
-From AG Require Import Event.Event Event.EventF64.
+From AG Require Import Event.Event.
 
 Definition to_dec {A} (r : res A) : dec A := match r with Ok a => DOk a | _ => DErr end.
 Definition nth_opt {A} (l : list A) (i : N) : option A := nth_error l (N.to_nat i).
@@ -132,6 +131,9 @@ Definition reasm_e2e (m : ovf) (cs : list chunkv) : dec pwbv :=
       end
   end.
 
+Definition decode_banks_m (m : ovf) (banks : list (list N * list N)) : list bank :=
+  map (fun nd => decode_bank_m m (fst nd) (snd nd)) banks.
+
 (* ---------------------------------------------------------------------------------- calibration *)
 Definition lookup1 {V} (tables : list (list (option V))) (t i : N) : option V :=
   match nth_opt tables t with
@@ -146,58 +148,64 @@ Definition lookup2 {V} (tables : list (list (list (option V)))) (t c r : N) : op
                 end
   | None => None
   end.
-(* a gain of Gen/Calib.v: the f64 mantissa * 2^exponent (|mantissa| < 2^53, the product is representable, so both
-   the conversion of the mantissa and the scaling are exact); every entry is compared bit for bit with the
-   implementation in the differential run (calw / calp lines) *)
-Definition f64_of_parts (p : Z * Z) : float :=
-  let a := PrimFloat.ldshiftexp (PrimFloat.of_uint63 (Uint63.of_Z (Z.abs (fst p))))
-                                (Uint63.of_Z (snd p + FloatOps.shift)) in
-  if (fst p <? 0)%Z then PrimFloat.opp a else a.
+(* The sample type F (f64 in the code), the calibration arithmetic fcal d g = f64::from(d) * g and the reading
+   gain_of of a tabulated gain (mantissa, exponent) are parameters, as in Event.v: the theorems hold for every F;
+   Event/E2E64.v instantiates them at IEEE binary64 for the extraction. *)
+Section Generic.
+Variable F : Type.
+Variable fcal : Z -> F -> F.
+Variable gain_of : Z * Z -> F.
 
 (* try_wire_baseline / try_wire_gain / try_wire_delay, lib.rs:304-306: any failure is an error *)
-Definition wire_cal_e2e (run w : N) : dec (Z * float * N) :=
+Definition wire_cal_e2e (run w : N) : dec (Z * F * N) :=
   match dispatch wire_baseline_arms run, dispatch wire_gain_arms run, dispatch wire_delay_arms run with
   | Some bi, Some gi, Some dl =>
       match lookup1 wire_baseline_tables bi w, lookup1 wire_gain_tables gi w with
-      | Some bl, Some g => DOk (bl, f64_of_parts g, dl)
+      | Some bl, Some g => DOk (bl, gain_of g, dl)
       | _, _ => DErr
       end
   | _, _, _ => DErr
   end.
 (* try_pad_baseline / try_pad_gain / try_pad_delay, lib.rs:364-366 *)
-Definition pad_cal_e2e (run c r : N) : dec (Z * float * N) :=
+Definition pad_cal_e2e (run c r : N) : dec (Z * F * N) :=
   match dispatch pad_baseline_arms run, dispatch pad_gain_arms run, dispatch pad_delay_arms run with
   | Some bi, Some gi, Some dl =>
       match lookup2 pad_baseline_tables bi c r, lookup2 pad_gain_tables gi c r with
-      | Some bl, Some g => DOk (bl, f64_of_parts g, dl)
+      | Some bl, Some g => DOk (bl, gain_of g, dl)
       | _, _ => DErr
       end
   | _, _, _ => DErr
   end.
 
 (* ---------------------------------------------------------------------------------- the environment *)
-Definition env_e2e_m (m : ovf) (run : N) : env float :=
+Definition env_e2e_m (m : ovf) (run : N) : env F :=
   {| wire_pos := fun b c => to_dec (Maps.wire_position run b c);
      pad_pos := fun b chip c => to_dec (Maps.pad_position run b chip c);
      wire_cal := wire_cal_e2e run;
      pad_cal := pad_cal_e2e run;
      reasm := reasm_e2e m |}.
 
-Definition decode_banks_m (m : ovf) (banks : list (list N * list N)) : list bank :=
-  map (fun nd => decode_bank_m m (fst nd) (snd nd)) banks.
-
 (* MainEvent::try_from_banks(run, banks); `order` = iteration order of the chunk-group HashMap *)
 Definition try_from_banks_model (m : ovf) (run : N) (banks : list (list N * list N))
-           (order : list (list chunkv) -> list (list chunkv)) : res (event float) :=
-  build fcal64 (env_e2e_m m run) m order (decode_banks_m m banks).
+           (order : list (list chunkv) -> list (list chunkv)) : res (event F) :=
+  build fcal (env_e2e_m m run) m order (decode_banks_m m banks).
 
 (* the instance at the overflow mode of a checked build (the two modes agree: e2e_mode_irrelevant) *)
-Definition env_e2e (run : N) : env float := env_e2e_m Checked run.
+Definition env_e2e (run : N) : env F := env_e2e_m Checked run.
 Definition decode_bank (name data : list N) : bank := decode_bank_m Checked name data.
 
 (* ---------------------------------------------------------------------------------- observations *)
 (* one calibration triple as the differential prints it *)
-Definition wire_cal_row (run : N) : list (dec (Z * float * N)) :=
+Definition wire_cal_row (run : N) : list (dec (Z * F * N)) :=
   map (wire_cal_e2e run) (Names.rangeN gen_CAL_WIRES).
-Definition pad_cal_col (run c : N) : list (dec (Z * float * N)) :=
+Definition pad_cal_col (run c : N) : list (dec (Z * F * N)) :=
   map (pad_cal_e2e run c) (Names.rangeN gen_CAL_PAD_ROWS).
+End Generic.
+
+Arguments wire_cal_e2e {F} gain_of run w.
+Arguments pad_cal_e2e {F} gain_of run c r.
+Arguments env_e2e_m {F} gain_of m run.
+Arguments env_e2e {F} gain_of run.
+Arguments try_from_banks_model {F} fcal gain_of m run banks order.
+Arguments wire_cal_row {F} gain_of run.
+Arguments pad_cal_col {F} gain_of run c.
